@@ -18,7 +18,7 @@ var specs = map[string]propSpec{
 	"C11":       {level: "model_checking", budgetQ: 4 * time.Minute, budgetT: 40 * time.Minute},
 	"C19":       {level: "model_checking", budgetQ: 4 * time.Minute, budgetT: 40 * time.Minute},
 	"C09":       {level: "model_checking", budgetQ: 6 * time.Minute, budgetT: 90 * time.Minute},
-	"C08":       {level: "model_checking", race: true, budgetQ: 10 * time.Minute, budgetT: 100 * time.Minute},
+	"C08":       {level: "model_checking", race: true, budgetQ: 10 * time.Minute, budgetT: 45 * time.Minute},
 	"C10":       {level: "model_checking", budgetQ: 4 * time.Minute, budgetT: 40 * time.Minute},
 	"C17":       {level: "model_checking", budgetQ: 4 * time.Minute, budgetT: 40 * time.Minute},
 	"C18":       {level: "model_checking", budgetQ: 4 * time.Minute, budgetT: 40 * time.Minute},
